@@ -383,6 +383,8 @@ def _run(st):
                          a, groups[0][1], _fmt_log(log), _ctx(st)))]
         if need:
             fired = groups[gi][1] if gi < len(groups) and groups[gi][0] == a else None
+            if not arriving and not resumed_group:
+                fired = None            # the first logged group belongs to a later dispatch, not to the arrival being resumed
             if fired is None:
                 st.broken = True
                 return [("callback-missed:%s:none-invoked" % skel,
@@ -580,7 +582,10 @@ def _run_check(ctx):
     phases = TIER_PHASES[ctx.tier]
     for sig, what in check_reference_traces():
         ctx.violation(sig, what, {"seed": 0, "hist": [], "phase": phases[0], "reference": True})
+    import time
+    t0 = time.time()
     compiled = jitx.precompile(ctx, _gcc_jobs(phases))
+    t1 = time.time()
     total = None
     per_phase = {}
     for ph in phases:
@@ -606,6 +611,8 @@ def _run_check(ctx):
     total.pop("new_states_per_depth", None)
     total["phases"] = per_phase
     total["gcc_blocks_precompiled"] = compiled
+    total["seconds_precompile"] = round(t1 - t0, 1)
+    total["seconds_explore"] = round(time.time() - t1, 1)
     total["bounds"] = {"phases": {ph: {"menu": PHASES[ph][0], "depth": PHASES[ph][1], "seeds": [list(x) for x in PHASES[ph][2]]} for ph in phases},
                        "menus": {"small": {"address_roles": {p: roles_for(p, True) for p in PROG_ORDER}, "max_registered_callbacks": 2},
                                  "wide": {"address_roles": {p: roles_for(p, False) for p in PROG_ORDER}, "max_registered_callbacks": 3}},
